@@ -88,6 +88,14 @@ def cases(tier, seed):
                 s = case_seed('C02', seed, 'highD', op, form, D)
                 out.append({'kind': 'arith', 'seed': s, 'params': {'op': op, 'form': form, 'other': 'utpm', 'rel': 'same', 'D': D, 'P': 1 + D % 2,
                                                                   'xshape': [2], 'data': 'random', 'odata': 'random', 'layout': 'C'}})
+                out.append({'kind': 'arith', 'seed': s + 1, 'params': {'op': op, 'form': form, 'other': 'utpm', 'rel': 'same', 'D': D, 'P': 1 + D % 2,
+                                                                      'xshape': [2], 'data': 'geometric', 'odata': 'geometric', 'layout': 'C'}})
+    for D in ((33, 40) if tier == 'quick' else (32, 33, 40, 64, 65)):
+        for n in (2, 3, 5):
+            for pk in ('pow_pyint', 'pow_npint'):
+                for dk in ('random', 'geometric'):
+                    s = case_seed('C02', seed, 'highD-pow', pk, D, n, dk)
+                    out.append({'kind': 'pow', 'seed': s, 'params': {'op': pk, 'D': D, 'P': 1, 'xshape': [2], 'data': dk, 'n': n}})
     for pk in ('pow_pyint', 'pow_npint', 'pow_float', 'pow_npfloat', 'pow_complex', 'rpow_float', 'rpow_int', 'rpow_complex', 'pow_utpm', 'pow_utpm_bcast'):
         for D in Ds:
             for rep in range(2 * reps):
@@ -167,6 +175,11 @@ def _mk_utpm_data(rng, D, P, shape, data, divisor):
         x = rng.normal(size=(D, P) + shape)
         if divisor:
             x[0] = rng.uniform(0.6, 2.5, size=(P,) + shape) * rng.choice([-1.0, 1.0], size=(P,) + shape)
+        if data == 'geometric':
+            # coefficients growing or decaying geometrically with the order (a curve with radius of convergence 1/2 resp. 2):
+            # small and large coefficients side by side, every one of them has to be right relative to its own size
+            r_ = [2.0, 0.5][int(rng.integers(2))]
+            x = x * (r_ ** np.arange(D)).reshape((D,) + (1,) * (x.ndim - 1))
         if data == 'tiny' and D > 1:
             x[1:] *= 10.0 ** -float(rng.integers(8, 13))       # an almost constant polynomial is still a polynomial
     return x
@@ -327,6 +340,7 @@ def _pow(ctx, case):
     mech = pk
     if pk in ('pow_pyint', 'pow_npint'):
         n = int(rng.integers(-3, 6)) if rng.random() < 0.6 else int(rng.integers(6, 14))          # exponents beyond the small ones too
+        n = case['params'].get('n', n)
         xd = _mk_utpm_data(rng, D, P, xs, data, n < 0)
         # integer exponents in every spelling NumPy accepts
         e = [n, bool(n) if n in (0, 1) else n][int(rng.integers(2))] if pk == 'pow_pyint' else \
